@@ -100,6 +100,8 @@ pub mod text;
 pub mod write;
 
 pub use deferred_reader::DeferredReader;
+#[cfg(flussab_verif)]
+pub use deferred_reader::VerifReaderState;
 pub use deferred_writer::DeferredWriter;
 pub use parser::{Parsed, Result, ResultExt};
 
